@@ -219,6 +219,8 @@ def kernel_scaling(rep, timeout, k, pos):
         p1 = execute.explore(lambda: symify(em._compute_finite_vortex(r1 * k, r2 * k)), pos)
         s0 = execute.explore(lambda: symify(em._compute_semi_infinite_vortex(u, r2)))
         s1 = execute.explore(lambda: symify(em._compute_semi_infinite_vortex(u, r2 * k)), pos)
+    if len(s0) != 1 or len(s1) != 1:
+        raise RuntimeError("semi-infinite vortex kernel: %d / %d paths (the lemma below is written for its single expression)" % (len(s0), len(s1)))
     obs = []
     for pa in p0:
         for pb in p1:
